@@ -340,6 +340,10 @@ def gen_cases(tier, seed):
         cases.append({"id": "codec-%d" % k, "sig": ["codec", k], "kind": "codec", "k": k, "n": 2000 if tier == "quick" else 20000})
     for k in range(4 if tier == "quick" else 16):
         cases.append({"id": "hostile-store-%d" % k, "sig": ["hostile-store", k], "kind": "hostile-store", "k": k})
+    # Server level: the name identifier an IdP puts into its responses over a sequence of logins, for every shape of NameIDPolicy an SP may send
+    for k in range(6 if tier == "quick" else 40):
+        cases.append({"id": "server-logins-%d" % k, "sig": ["server-logins", k], "kind": "server-logins", "k": k, "len": 40 if tier == "quick" else 300,
+                      "local_format": ["persistent", "persistent", "transient", "none"][k % 4]})
     for k in range(4):
         cases.append({"id": "userid-equals-issued-text-%d" % k, "sig": ["userid-equals-issued-text", k], "kind": "adversarial-userid", "k": k})
     return cases
@@ -439,6 +443,8 @@ def run_case(case, ctx):
             counters["histories"] = 1
         except Violation as v:
             viols.append({"key": v.key, "what": v.what, "detail": {"history": h.trace[-6:]}})
+    elif kind == "server-logins":
+        run_server_logins(case, ctx, rng, counters, viols, sigs)
     elif kind == "adversarial-userid":
         # a principal whose local identifier equals an identifier text issued earlier to someone else
         h = Harness({}, counters)
@@ -456,6 +462,86 @@ def run_case(case, ctx):
     return {"outcome": "violations" if viols else "held", "nontrivial": bool(sigs) and counters.get("resolve_checks", 0) + counters.get("codec_roundtrips", 0) > 0,
             "violations": viols[:5], "counters": counters, "sigs": [list(map(str, s)) for s in list(sigs)[:3000]],
             "evals": max(1, counters.get("histories", 0)), "obs": {"kind": kind}}
+
+
+POLICY_SHAPES = ["absent", "empty", "allow-create-only", "format-persistent", "format-persistent+spnq", "format-transient", "format-unspecified",
+                 "spnq-only"]
+
+
+def run_server_logins(case, ctx, rng, counters, viols, sigs):
+    """what a relying party sees: for one IdP, every login of user u at SP s that yields a persistent identifier yields the same one, whatever
+    NameIDPolicy the request carried this time; different users / SPs never share one; every identifier handed out resolves to its user"""
+    import xml.etree.ElementTree as ET
+    from vlib import fed
+    from saml2_tophat.samlp import NameIDPolicy
+    from saml2_tophat.saml import NAMEID_FORMAT_PERSISTENT as PERS, NAMEID_FORMAT_TRANSIENT as TRANS, NameID
+    UNSPEC = "urn:oasis:names:tc:SAML:1.1:nameid-format:unspecified"
+    sps = [fed.SP_EID, "https://sp-b.example.org/md"]
+    pol = copy.deepcopy(fed.DEFAULT_POLICY)
+    lf = case["local_format"]
+    if lf == "none":
+        del pol["default"]["nameid_format"]
+    else:
+        pol["default"]["nameid_format"] = PERS if lf == "persistent" else TRANS
+    mds = [fed.metadata_of(fed.sp_conf(eid=e, endpoints={"assertion_consumer_service": [(e.replace("/md", "/acs"), fed.BINDING_HTTP_POST)]})) for e in sps]
+    idp = fed.make_idp(fed.idp_conf(policy=pol), mds)
+    persistent = {}      # (user, sp qualifier) -> text
+    owner = {}           # text -> (user, sp qualifier)
+    trace = []
+    try:
+        for i in range(case["len"]):
+            u = rng.choice(USERS)
+            sp = rng.choice(sps)
+            shape = rng.choice(POLICY_SHAPES)
+            nip = {"absent": None, "empty": NameIDPolicy(), "allow-create-only": NameIDPolicy(allow_create="true"),
+                   "format-persistent": NameIDPolicy(format=PERS, allow_create="true"),
+                   "format-persistent+spnq": NameIDPolicy(format=PERS, sp_name_qualifier=sp),
+                   "format-transient": NameIDPolicy(format=TRANS), "format-unspecified": NameIDPolicy(format=UNSPEC, allow_create="true"),
+                   "spnq-only": NameIDPolicy(sp_name_qualifier=sp)}[shape]
+            trace.append((u, sp.split("//")[1].split(".")[0], shape))
+            try:
+                xml = "%s" % idp.create_authn_response({"givenName": ["x"]}, "id-%d" % i, sp.replace("/md", "/acs"), sp, userid=u,
+                                                       name_id_policy=nip, authn=fed.AUTHN)
+            except Exception as exc:
+                counters["login_refused:%s:%s" % (shape, type(exc).__name__)] = counters.get("login_refused:%s:%s" % (shape, type(exc).__name__), 0) + 1
+                continue
+            root = ET.fromstring(xml.encode("utf-8"))
+            nid = root.find(".//{urn:oasis:names:tc:SAML:2.0:assertion}Subject/{urn:oasis:names:tc:SAML:2.0:assertion}NameID")
+            if nid is None:
+                counters["login_without_nameid:" + shape] = counters.get("login_without_nameid:" + shape, 0) + 1
+                continue
+            fmt, text, snq = nid.get("Format"), nid.text, nid.get("SPNameQualifier") or ""
+            counters["logins"] = counters.get("logins", 0) + 1
+            sigs.add(("server-logins", lf, shape, fmt.split(":")[-1] if fmt else "-"))
+            got = idp.ident.find_local_id(NameID(text=text, format=fmt, sp_name_qualifier=snq or None))
+            counters["resolve_checks"] = counters.get("resolve_checks", 0) + 1
+            if got != u:
+                viols.append({"key": "C18/identifier-resolves-to-wrong-principal", "what": "login %d (%s at %s, NameIDPolicy %s): the identifier in the response resolves to %r" % (
+                    i, u, sp, shape, got), "detail": {"history": trace[-10:]}})
+                return
+            if text in owner and owner[text] != (u, sp):
+                viols.append({"key": "C18/persistent-shared-across-users-or-sps", "what": "login %d: %s at %s (NameIDPolicy %s) was given %r, the identifier of %r" % (
+                    i, u, sp, shape, text[:16], owner[text]), "detail": {"history": trace[-10:]}})
+                return
+            if fmt == PERS:
+                counters["persistent_logins"] = counters.get("persistent_logins", 0) + 1
+                if (u, sp) in persistent:
+                    counters["persistent_stability_checked"] = counters.get("persistent_stability_checked", 0) + 1
+                    if persistent[(u, sp)] != text:
+                        viols.append({"key": "C18/persistent-not-stable:server-login", "what": "login %d: %s at %s with NameIDPolicy %s (local nameid_format %s) was given persistent identifier "
+                                      "%r; an earlier login gave %r" % (i, u, sp, shape, lf, text[:16], persistent[(u, sp)][:16]), "detail": {"history": trace[-10:]}})
+                        return
+                else:
+                    persistent[(u, sp)] = text
+                owner[text] = (u, sp)
+            elif fmt == TRANS:
+                if text in owner:
+                    viols.append({"key": "C18/identifier-not-fresh", "what": "login %d: transient identifier %r was issued before" % (i, text[:16])})
+                    return
+                owner[text] = (u, sp)
+        counters["histories"] = 1
+    finally:
+        idp.close()
 
 
 def finalize(cases, results, tier, extras):
